@@ -8,4 +8,4 @@ for p in "$@"; do
   rc=$?
   echo "$p: exit=$rc $(echo "$out" | grep -E '^(VIOLATION|UNDECIDED)' | head -2 | cut -c1-250 | tr '\n' '|')"
 done
-rm -rf /verif/build/scratch/try-$$
+rm -rf /verif/build/scratch/try-$$ /verif/build/units-$(printf %s "$s" | sha1sum | cut -c1-8)
